@@ -69,16 +69,14 @@ def encode_token(token: str):
 def decode_token(token: str):
     "Decode single token by un-escaping special characters and character sequences"
     encoding = {e: s for s, e in ESCAPE_SEQUENCES}
-    if token == "":
-        return ""
-    try:
-        index = token.index(ESCAPE)
-        head = token[:index]
+    decoded = ""
+    while True:
+        index = token.find(ESCAPE)
+        if index < 0:
+            return decoded + unquote(token)
         mid = token[index : index + 2]
-        tail = token[index + 2 :]
-        return unquote(head + encoding.get(mid, mid)) + decode_token(tail)
-    except ValueError:
-        return unquote(token)
+        decoded += unquote(token[:index] + encoding.get(mid, mid))
+        token = token[index + 2 :]
 
 
 def encode(ql: list):
